@@ -27,7 +27,7 @@ RS = {"engine": "rapidspace", "needs": ["hz", "enum", "rapidspace"], "level": "m
       "budget": {"quick": "240s", "thorough": "1800s"}}
 
 PROPS = {
-    "C11": {"engine": "sched", "needs": ["hz", "enum", "sched"], "level": "model_checking", "race_twin": True,
+    "C11": {"engine": "sched", "needs": ["hz", "enum", "zzyield", "sched"], "level": "model_checking", "race_twin": True, "instrument_yield": True, "mapctl": True,
             "gen": {"quick": ["mx"], "thorough": ["mx"]}, "budget": {"quick": "300s", "thorough": "2400s"}},
     "C19": {"engine": "coherence", "needs": ["hz", "enum", "coherence"], "level": "exploration", "reqdata": True,
             "gen": {"quick": ["mx"], "thorough": ["mx", "mxall"]}},
